@@ -940,10 +940,22 @@ def m_exit_code(it, argv, text):
 
 @emodel('which')
 def m_which(it, argv, text):
+    """which::which for a bare name: the first $PATH entry holding such a file, joined with the name AS THE ENTRY IS SPELLED
+    (a relative entry gives a relative result); names containing a separator are resolved against the process cwd"""
     env = env_of(it)
     exe = it.as_str(argv[0]).b
-    for d in (b'/usr/bin', b'/bin'):
-        p = tuple(d) + (SLASH,) + tuple(exe)
+    if any(is_sym(b) for b in exe):
+        raise Unsupported("which() of a symbolic name")
+    if SLASH in exe:
+        n = env.lookup(exe)
+        if n is not None and n[1] == 'file':
+            return ok(StrV(comps_to_bytes(env.norm(exe))))
+        return err(OpaqueV('which::Error'))
+    path = bytes(env.env_vars.get(b'PATH', b'/usr/bin:/bin'))
+    for d in path.split(b':'):
+        if not d:
+            continue
+        p = tuple(d.rstrip(b'/') if d != b'/' else b'') + (SLASH,) + tuple(exe)
         n = env.lookup(p)
         if n is not None and n[1] == 'file':
             return ok(StrV(p))
